@@ -1362,6 +1362,58 @@ let run_pc_ipa c =
                | _ -> obs1 (k "check") "S" "refused");
               brecs.(t) <- Some (tr3, pfl, vperm)
             | _ -> ())
+         | [ "lc"; sq; ls ] ->
+           let chal = fs_of c (k "chal") and vchal = fs_of c (k "vchal") in
+           let ident = List.init n (fun i -> i) in
+           let pperm = if has c (k "pperm") then List.map int_of_string (get c (k "pperm")) else ident in
+           let vperm = if has c (k "vperm") then List.map int_of_string (get c (k "vperm")) else ident in
+           let otape = if has c (k "otape") then fs_of c (k "otape") else [] in
+           let lcs = parse_lcs c sq lps in
+           let lcarr = Array.of_list lcs in
+           let tr3 = triples3 (get c ("lqs." ^ ls)) in
+           let lc_value (_, terms) z = List.fold_left (fun acc (co, tm) ->
+               fo.Field.fadd acc (match tm with
+                   | LC.TOne -> co
+                   | LC.TPoly l ->
+                     let lp = List.find (fun lp -> Z.equal lp.Marlin.lp_label l) (Array.to_list lps) in
+                     fo.Field.fmul co (Poly.eval fo lp.Marlin.lp_poly z))) (tof Z.zero) terms in
+           let qs = List.sort_uniq (fun (l1, (p1, z1)) (l2, (p2, z2)) ->
+               let r = Z.compare l1 l2 in if r <> 0 then r else let r = Z.compare p1 p2 in if r <> 0 then r else compare (List.map ofz z1) (List.map ofz z2))
+               (List.map (fun (kk, zl, pj) -> (fst lcarr.(kk), (nlabel zl, [ pts.(pj) ]))) tr3) in
+           let tbl = Hashtbl.create 16 in
+           List.iter (fun (kk, _, pj) -> Hashtbl.replace tbl (Z.to_string (fst lcarr.(kk)) ^ "@" ^ f_to_str pts.(pj))
+                         ((fst lcarr.(kk), [ pts.(pj) ]), lc_value lcarr.(kk) pts.(pj))) tr3;
+           let evm = List.sort (fun ((l1, z1), _) ((l2, z2), _) -> let r = Z.compare l1 l2 in if r <> 0 then r else cmpz (List.hd z1) (List.hd z2))
+               (Hashtbl.fold (fun _ v acc -> v :: acc) tbl []) in
+           obs (k "evals") "F" (fs_to (List.map snd evm));
+           let items = List.map (fun i -> ((lps.(i), snd cs.(i)), (fst cs.(i), lps.(i).Marlin.lp_bound))) pperm in
+           let r = IPABatch.i_open_combinations fo dn lcs items qs ((chal, tape_of (k "hchal")), Some otape) in
+           obs1 (k "open") "S" (class_of r);
+           (match r with
+            | Result.Ok (pfl, ((rest, _), rng')) ->
+              obs1 (k "nchal") "N" (string_of_int (List.length chal - List.length rest));
+              obs1 (k "open_draws") "N" (string_of_int (List.length otape - (match rng' with Some l -> List.length l | None -> 0)));
+              obs1 (k "nproofs") "N" (string_of_int (List.length pfl));
+              obs1 (k "lc_evals") "F" "none";
+              List.iteri (fun g pf ->
+                  let nm = Printf.sprintf "pf.%d.%d" t g in
+                  obs1 (nm ^ ".rounds") "N" (string_of_int (List.length pf.IPA.ip_l));
+                  if pf.IPA.ip_l <> [] then begin
+                    obs (nm ^ ".l") "L:basis" (List.map gv_tok pf.IPA.ip_l);
+                    obs (nm ^ ".r") "L:basis" (List.map gv_tok pf.IPA.ip_r)
+                  end;
+                  obs1 (nm ^ ".key") "L:basis" (gv_tok pf.IPA.ip_key);
+                  obs1 (nm ^ ".c") "F" (f_to_str pf.IPA.ip_c);
+                  (match pf.IPA.ip_hcomm with Some h -> obs1 (nm ^ ".hcomm") "L:basis" (gv_tok h) | None -> ());
+                  obs1 (nm ^ ".rand") "F" (f_opt_to_str pf.IPA.ip_rand)) pfl;
+              let cml = List.map (fun i -> (lps.(i).Marlin.lp_label, (fst cs.(i), lps.(i).Marlin.lp_bound))) vperm in
+              (match IPABatch.i_check_combinations fo dn lcs cml qs evm pfl vchal (tape_of (k "vhchal")) (tape_of (k "vtape")) with
+               | Result.Ok (((b, vrest), _), draws) ->
+                 obs1 (k "check") "S" (if b then "accept" else "reject");
+                 obs1 (k "nvchal") "N" (string_of_int (List.length vchal - List.length vrest));
+                 obs1 (k "check_draws") "N" (string_of_int (int_of_nat draws))
+               | _ -> obs1 (k "check") "S" "refused")
+            | _ -> ())
          | _ -> ()
        done;
        List.iter (fun (m, mv) ->
